@@ -7,6 +7,7 @@ pub mod c03;
 pub mod c04;
 pub mod c05;
 pub mod c08;
+pub mod c09;
 pub mod c10;
 pub mod c11;
 
@@ -22,6 +23,7 @@ pub fn run(ctx: &mut Ctx) {
         "C04" => c04::run(ctx),
         "C05" => c05::run(ctx),
         "C08" => c08::run(ctx),
+        "C09" => c09::run(ctx),
         "C10" => c10::run(ctx),
         "C11" => c11::run(ctx),
         other => {
@@ -39,6 +41,7 @@ pub fn replay(ctx: &mut Ctx, stage: &str, case: &Value) -> Result<(), String> {
         "C04" => c04::replay(ctx, stage, case),
         "C05" => c05::replay(ctx, stage, case),
         "C08" => c08::replay(ctx, stage, case),
+        "C09" => c09::replay(ctx, stage, case),
         "C10" => c10::replay(ctx, stage, case),
         "C11" => c11::replay(ctx, stage, case),
         other => Err(format!("{other}: no engine built yet")),
